@@ -9,7 +9,7 @@ import struct
 
 from ..core import Ctx
 from ..match import arg, call_name, calls, local_defs, rchain, resolve, single_def
-from ..model import NOCONST, AnalysisError, ClassInfo, FuncInfo, ancestors, chain, const_value, enclosing_stmt, norm, strip_cast, walk_no_nested
+from ..model import NOCONST, AnalysisError, ClassInfo, FuncInfo, ancestors, chain, clone, const_value, enclosing_stmt, norm, strip_cast, walk_no_nested
 
 SER = "ipv8/messaging/serialization.py"
 
@@ -53,6 +53,66 @@ class Lin:
 
 class Unknown(Exception):
     pass
+
+
+class _Infeasible(Exception):
+    """The path cannot be taken under the assumed tag value / the selected entry of a constant table."""
+
+
+_WRAPPERS = ("MappingProxyType", "types.MappingProxyType", "dict", "tuple", "list", "frozenset")
+
+
+_NOTAG = object()
+
+
+def const_display(repo, fi: FuncInfo, k: ClassInfo | None, e: ast.AST) -> ast.AST | None:
+    """The literal (tuple / list / dict / set display) that e denotes when e is such a display or names a module-level / class-level constant."""
+    def is_local(name: str) -> bool:
+        return name in fi.params() or bool(local_defs(fi, name))
+    e = strip_cast(e)
+    for _ in range(4):
+        if isinstance(e, ast.Call) and chain(e.func) in _WRAPPERS and len(e.args) == 1 and not e.keywords:
+            e = strip_cast(e.args[0])
+            continue
+        if isinstance(e, (ast.Tuple, ast.List, ast.Dict, ast.Set)):
+            return e
+        if isinstance(e, ast.Name) and not is_local(e.id):
+            r = repo.resolve_name(fi.module, e.id)
+            if isinstance(r, tuple) and r[0] == "const":
+                e = strip_cast(r[2])
+                continue
+            a = k.lookup_attr(e.id) if k is not None else None      # a name used inside a class-level table
+            if a is not None:
+                e = strip_cast(a)
+                continue
+            return None
+        if isinstance(e, ast.Attribute) and isinstance(e.value, ast.Name):
+            kk = k if e.value.id in ("self", "cls") else repo.resolve_class_expr(fi.module, e.value)
+            a = kk.lookup_attr(e.attr) if kk is not None else None
+            if a is not None and not any(isinstance(st, ast.Assign) and chain(st.targets[0]) == f"self.{e.attr}"
+                                         for m in kk.methods.values() for st in walk_no_nested(m.node)):
+                e = strip_cast(a)
+                continue
+            return None
+        return None
+    return None
+
+
+def table_entries(const_expr, it: ast.AST) -> list[ast.AST] | None:
+    it = strip_cast(it)
+    if isinstance(it, ast.Call) and isinstance(it.func, ast.Attribute) and it.func.attr in ("items", "keys", "values") and not it.args and not it.keywords:
+        d = const_expr(it.func.value)
+        if isinstance(d, ast.Dict) and d.keys and all(k is not None for k in d.keys):
+            if it.func.attr == "items":
+                return [ast.Tuple(elts=[k, v], ctx=ast.Load()) for k, v in zip(d.keys, d.values)]
+            return list(d.keys if it.func.attr == "keys" else d.values)
+        return None
+    t = const_expr(it)
+    if isinstance(t, (ast.Tuple, ast.List)) and t.elts and not any(isinstance(x, ast.Starred) for x in t.elts):
+        return list(t.elts)
+    if isinstance(t, ast.Dict) and t.keys and all(k is not None for k in t.keys):
+        return list(t.keys)
+    return None
 
 
 class PackerModel:
@@ -110,6 +170,20 @@ class PackerModel:
         """attr name X if e is `self.X` and X holds a precompiled Struct."""
         if isinstance(e, ast.Attribute) and isinstance(e.value, ast.Name) and e.value.id == "self" and e.attr in self.struct_attr:
             return e.attr
+        # a precompiled struct held in a module-level / class-level constant: NAME = Struct(fmt)
+        init = None
+        key = None
+        if isinstance(e, ast.Name):
+            r = self.ctx.repo.resolve_name(self.cls.module, e.id)
+            if isinstance(r, tuple) and r[0] == "const":
+                init, key = strip_cast(r[2]), "@" + e.id
+        elif isinstance(e, ast.Attribute) and isinstance(e.value, ast.Name) and e.value.id in ("self", "cls", self.cls.name):
+            a = self.cls.lookup_attr(e.attr)
+            if a is not None:
+                init, key = strip_cast(a), "@" + self.cls.name + "." + e.attr
+        if isinstance(init, ast.Call) and chain(init.func) in ("Struct", "struct.Struct") and len(init.args) == 1 and isinstance(const_value(init.args[0]), str):
+            self.struct_attr.setdefault(key, init.args[0])
+            return key
         return None
 
     def fmt_size(self, e: ast.AST) -> Lin:
@@ -138,6 +212,227 @@ class UnpackRun:
         self.loops: list[tuple[ast.For, Lin | None]] = []    # for-loops entered on this path and the linear form of `range(N)`'s N
         self.seen: list[ast.AST] = []           # every expression evaluated on this path (for per-path call inventories)
         self.delegates: list[ast.Call] = []     # delegated unpack calls in the order they consume bytes
+        self.delegate_fmts: list = []           # their first argument (format name) with bound locals replaced
+        self.bind: dict[str, ast.AST] = {}      # local name -> closed constant expression (entry of a constant table, argument of a followed helper)
+        self.conds: list[tuple[ast.AST, bool]] = []   # condition atoms taken on this path with their outcome
+        self.convs: set = set()                 # address text conversions evaluated on this path (see _addr_conversions)
+        self.byte_of: dict[int, int] = {}       # id(`data[i]` subscript) -> index into self.reads
+        self.assume: tuple[dict, str] | None = None   # ({tag constant name: value}, assumed tag name or "<other>") for the first wire byte
+        self.memo: dict = {}                    # (constant dict, key value) -> the entry this path assumes the lookup yields
+        self.frames: list = []                  # saved caller frames while a helper is followed
+        self.retvals = None                     # value(s) returned by the frame that just finished (followed helper)
+
+    _COPIED = ("env", "reads", "wire", "read_of", "tuples", "loops", "seen", "delegates", "delegate_fmts", "bind", "conds", "convs", "byte_of", "frames", "memo")
+
+    def clone(self) -> "UnpackRun":
+        r = UnpackRun.__new__(UnpackRun)
+        r.__dict__.update(self.__dict__)
+        for k in self._COPIED:
+            v = getattr(self, k)
+            setattr(r, k, dict(v) if isinstance(v, dict) else set(v) if isinstance(v, set) else list(v))
+        return r
+
+    # ---- constant bindings / constant tables
+    def subst(self, e: ast.AST) -> ast.AST:
+        """e with a bound local replaced by the constant expression it stands for (also `spec[1]` of a bound tuple literal)."""
+        e = strip_cast(e)
+        for _ in range(6):
+            if isinstance(e, ast.Name) and e.id in self.bind and e.id not in self.env:
+                e = strip_cast(self.bind[e.id])
+                continue
+            if self.memo and isinstance(e, (ast.Subscript, ast.Call)):
+                k = self.memo_key(e)
+                if k is not None and k in self.memo:
+                    e = strip_cast(self.memo[k])
+                    continue
+            if isinstance(e, ast.Subscript) and not isinstance(e.slice, ast.Slice) and isinstance(strip_cast(e.value), (ast.Name, ast.Subscript)):
+                base = self.subst(e.value)
+                i = const_value(e.slice)
+                if isinstance(base, (ast.Tuple, ast.List)) and isinstance(i, int) and not isinstance(i, bool) and -len(base.elts) <= i < len(base.elts) \
+                        and not any(isinstance(x, ast.Starred) for x in base.elts):
+                    e = strip_cast(base.elts[i])
+                    continue
+            break
+        return e
+
+    def _is_local(self, name: str) -> bool:
+        return name in self.fi.params() or bool(local_defs(self.fi, name))
+
+    def closed(self, e: ast.AST) -> bool:
+        """e mentions no local of the current function (so it means the same wherever it is evaluated on this path)."""
+        return not any(isinstance(n, ast.Name) and self._is_local(n.id) and n.id not in ("self", "cls") for n in ast.walk(e)) \
+            and not any(isinstance(n, (ast.Call, ast.Lambda, ast.ListComp, ast.GeneratorExp, ast.DictComp, ast.SetComp, ast.Await, ast.NamedExpr)) for n in ast.walk(e))
+
+    def const_expr(self, e: ast.AST) -> ast.AST | None:
+        """The literal (tuple / list / dict / set display) a module-level or class-level constant table denotes, if e names one."""
+        return const_display(self.pm.ctx.repo, self.fi, self.fi.cls or self.pm.cls, self.subst(e))
+
+    def table_entries(self, it: ast.AST) -> list[ast.AST] | None:
+        """Elements a `for` over a constant table visits (tuple / list display, dict display -> keys, D.items() -> (key, value) pairs)."""
+        return table_entries(self.const_expr, it)
+
+    def bind_pattern(self, tgt: ast.AST, value: ast.AST) -> None:
+        """Bind the names of an assignment / loop target to a closed constant expression (element-wise for tuple displays)."""
+        value = self.subst(value)
+        if isinstance(tgt, ast.Name):
+            for d in (self.env, self.tuples, self.wire, self.bind):
+                d.pop(tgt.id, None)
+            self.bind[tgt.id] = value
+            return
+        if isinstance(tgt, (ast.Tuple, ast.List)) and isinstance(value, (ast.Tuple, ast.List)) and len(tgt.elts) == len(value.elts) \
+                and not any(isinstance(x, ast.Starred) for x in list(tgt.elts) + list(value.elts)):
+            for t, v in zip(tgt.elts, value.elts):
+                self.bind_pattern(t, v)
+            return
+        for n in ast.walk(tgt):
+            if isinstance(n, ast.Name):
+                for d in (self.env, self.tuples, self.wire, self.bind):
+                    d.pop(n.id, None)
+
+    # ---- decisions under the assumed tag / bound constants
+    def _tag_byte(self, x: ast.AST) -> bool:
+        try:
+            return bool(self.reads) and self.reads[0][0] == Lin.sym("offset") and _struct_chars(self.reads[0][2][len("struct:"):]) == "B" \
+                and self.reads[0][2].startswith("struct:") and self.lin(x) == self.wsym(0, 0)
+        except Unknown:
+            return False
+
+    def _tagval(self, y: ast.AST):
+        y = self.subst(y)
+        vals = self.assume[0]
+        c = chain(y)
+        if c is not None and c.split(".")[-1] in vals:
+            return vals[c.split(".")[-1]]
+        cv = self.pm.ctx.repo.resolve_const(self.fi.module, y, self.fi.cls)
+        return cv if isinstance(cv, int) and not isinstance(cv, bool) else None
+
+    def _none_ness(self, e: ast.AST) -> bool | None:
+        """True: e is None; False: e is certainly not None; None: unknown (e is a closed constant expression)."""
+        if isinstance(e, ast.Constant):
+            return e.value is None
+        if isinstance(e, (ast.Tuple, ast.List, ast.Dict, ast.Set, ast.Lambda, ast.JoinedStr)):
+            return False
+        repo = self.pm.ctx.repo
+        if isinstance(e, ast.Attribute) and isinstance(e.value, ast.Name) and e.value.id in ("self", "cls"):
+            k = self.fi.cls or self.pm.cls
+            return False if k is not None and k.lookup(e.attr) is not None else None
+        if isinstance(e, ast.Name):
+            r = repo.resolve_name(self.fi.module, e.id)
+            k = self.fi.cls or self.pm.cls
+            if isinstance(r, (FuncInfo, ClassInfo)) or (r is None and k is not None and k.lookup(e.id) is not None):
+                return False
+        cv = repo.resolve_const(self.fi.module, e, self.fi.cls)
+        return None if cv is NOCONST else cv is None
+
+    def decide(self, atom: ast.AST) -> bool | None:
+        """Outcome of a condition atom that is fixed by the assumed tag value or by a bound constant; None when it is open."""
+        a = strip_cast(atom)
+        if isinstance(a, (ast.Name, ast.Subscript, ast.Call)) and self.subst(a) is not a:
+            v = self.subst(a)
+            nn = self._none_ness(v)
+            if nn is True:
+                return False
+            if isinstance(v, (ast.Tuple, ast.List, ast.Dict, ast.Set)):
+                return bool(v.elts if not isinstance(v, ast.Dict) else v.keys)
+            if isinstance(v, ast.Constant):
+                return bool(v.value)
+            if nn is False and isinstance(v, (ast.Attribute, ast.Name, ast.Lambda)):
+                cv = self.pm.ctx.repo.resolve_const(self.fi.module, v, self.fi.cls)
+                return True if cv is NOCONST else bool(cv)
+            return None
+        if not (isinstance(a, ast.Compare) and len(a.ops) == 1):
+            return None
+        op, l, r = a.ops[0], a.left, a.comparators[0]
+        if isinstance(op, (ast.Is, ast.IsNot, ast.Eq, ast.NotEq)):
+            for x, y in ((l, r), (r, l)):
+                if isinstance(y, ast.Constant) and y.value is None and isinstance(strip_cast(x), (ast.Name, ast.Subscript, ast.Call)):
+                    sx = self.subst(x)
+                    if sx is not strip_cast(x):
+                        nn = self._none_ness(sx)
+                        if nn is not None:
+                            return nn == isinstance(op, (ast.Is, ast.Eq))
+        if self.assume is None:
+            return None
+        vals, tag = self.assume
+        assumed = vals.get(tag, _NOTAG)
+        if isinstance(op, (ast.Eq, ast.NotEq, ast.Is, ast.IsNot)):
+            for x, y in ((l, r), (r, l)):
+                if self._tag_byte(x):
+                    tv = self._tagval(y)
+                    if tv is None:
+                        return None
+                    return (assumed == tv) == isinstance(op, (ast.Eq, ast.Is))
+        if isinstance(op, (ast.In, ast.NotIn)) and self._tag_byte(l):
+            c = self.const_expr(r)
+            elts = None
+            if isinstance(c, (ast.Tuple, ast.List, ast.Set)):
+                elts = list(c.elts)
+            elif isinstance(c, ast.Dict) and all(k is not None for k in c.keys):
+                elts = list(c.keys)
+            if elts is not None:
+                tvs = [self._tagval(x) for x in elts]
+                if all(t is not None for t in tvs):
+                    return (assumed in tvs) == isinstance(op, ast.In)
+        return None
+
+    def cond(self, atom: ast.AST, lab) -> None:
+        """A condition atom is evaluated with outcome `lab` on this path."""
+        if lab in (True, False):
+            v = self.decide(atom)
+            if v is not None and v != lab:
+                raise _Infeasible
+            self.conds.append((atom, lab))
+        self.scan_reads(atom)
+
+    # ---- constant-table lookups: `x = TABLE[key]` / `TABLE.get(key[, default])`
+    def table_lookup(self, v: ast.AST):
+        """(dict display, key expression, default expression | None, raises_when_missing) if v looks a key up in a constant dict; else None."""
+        v = strip_cast(v)
+        if isinstance(v, ast.Subscript) and not isinstance(v.slice, ast.Slice):
+            d = self.const_expr(v.value) if isinstance(strip_cast(v.value), (ast.Name, ast.Attribute, ast.Dict)) else None
+            if isinstance(d, ast.Dict) and all(k is not None for k in d.keys):
+                return d, v.slice, None, True
+        if isinstance(v, ast.Call) and isinstance(v.func, ast.Attribute) and v.func.attr == "get" and 1 <= len(v.args) <= 2 and not v.keywords:
+            d = self.const_expr(v.func.value) if isinstance(strip_cast(v.func.value), (ast.Name, ast.Attribute, ast.Dict)) else None
+            if isinstance(d, ast.Dict) and all(k is not None for k in d.keys):
+                return d, v.args[0], (v.args[1] if len(v.args) == 2 else ast.Constant(value=None)), False
+        return None
+
+    def memo_key(self, v: ast.AST):
+        t = self.table_lookup(v)
+        if t is None:
+            return None
+        d, key, default, raises = t
+        try:
+            kv = str(self.lin(key))
+        except Unknown:
+            kv = "?" + norm(self.subst(key))
+        return (ast.dump(d), kv, raises, None if default is None else ast.dump(self.subst(default)))
+
+    def lookup_alternatives(self, v: ast.AST) -> list[ast.AST] | None:
+        """The closed expressions a constant-dict lookup may yield on this path (one under an assumed tag); raises _Infeasible for a KeyError."""
+        t = self.table_lookup(v)
+        if t is None:
+            return None
+        d, key, default, raises = t
+        if default is not None:
+            default = self.subst(default)
+            if not self.closed(default):
+                return None
+        if not all(self.closed(x) for x in d.values):
+            return None
+        if self.assume is not None and self._tag_byte(key):
+            vals, tag = self.assume
+            assumed = vals.get(tag, _NOTAG)
+            tvs = [self._tagval(k) for k in d.keys]
+            if all(tv is not None for tv in tvs):
+                hit = [val for tv, val in zip(tvs, d.values) if tv == assumed]
+                if hit:
+                    return [hit[-1]]
+                if raises:
+                    raise _Infeasible
+                return [default]
+        return list(d.values) + ([] if raises else [default])
 
     def wsym(self, read: int, index: int) -> Lin:
         """Symbol of value `index` of struct read number `read` (named by position of the read, not by the local it is stored in)."""
@@ -157,6 +452,12 @@ class UnpackRun:
         cv = const_value(e)
         if isinstance(cv, int) and not isinstance(cv, bool):
             return Lin(cv)
+        if isinstance(e, ast.Subscript) and id(e) in self.byte_of:
+            return self.wsym(self.byte_of[id(e)], 0)
+        if isinstance(e, (ast.Name, ast.Subscript)):
+            b = self.subst(e)
+            if b is not e:
+                return self.lin(b)
         if isinstance(e, ast.Name):
             if e.id in self.env:
                 return self.env[e.id]
@@ -175,7 +476,7 @@ class UnpackRun:
                 return Lin(struct.calcsize(m.group(1))) if m else Lin.sym(v)
             return Lin.sym(chain(e))
         if isinstance(e, ast.Call) and chain(e.func) in ("calcsize", "struct.calcsize") and len(e.args) == 1:
-            return self.pm.fmt_size(e.args[0])
+            return self.pm.fmt_size(self.subst(e.args[0]))
         if isinstance(e, ast.BinOp):
             if isinstance(e.op, ast.Add):
                 return self.lin(e.left) + self.lin(e.right)
@@ -201,13 +502,18 @@ class UnpackRun:
     def scan_reads(self, e: ast.AST) -> None:
         """Record unpack_from calls and slices of the data buffer inside an expression (in source order)."""
         self.seen.append(e)
-        nodes = sorted((n for n in ast.walk(e) if isinstance(n, (ast.Call, ast.Subscript))), key=lambda n: (n.lineno, n.col_offset))
+        nodes = sorted((n for n in ast.walk(e) if isinstance(n, (ast.Call, ast.Subscript))), key=lambda n: (getattr(n, "lineno", 0), getattr(n, "col_offset", 0)))
         for n in nodes:
             if isinstance(n, ast.Call) and chain(n.func) in ("unpack_from", "struct.unpack_from") and chain(arg(n, 1)) == self.data:
                 off = arg(n, 2, "offset")
                 start = self.lin(off) if off is not None else Lin(0)
                 self.read_of[id(n)] = len(self.reads)
-                self.reads.append((start, self.pm.fmt_size(n.args[0]), "struct:" + (const_value(n.args[0]) if isinstance(const_value(n.args[0]), str) else norm(n.args[0]))))
+                f = self.subst(n.args[0])
+                self.reads.append((start, self.pm.fmt_size(f), "struct:" + (const_value(f) if isinstance(const_value(f), str) else norm(f))))
+            elif isinstance(n, ast.Subscript) and not isinstance(n.slice, ast.Slice) and chain(n.value) == self.data and self.data is not None:
+                # data[i]: one unsigned byte, the same value as unpack_from(">B", data, i)[0]
+                self.byte_of[id(n)] = len(self.reads)
+                self.reads.append((self.lin(n.slice), Lin(1), "struct:>B"))
             elif isinstance(n, ast.Call) and isinstance(n.func, ast.Attribute) and n.func.attr == "unpack_from" and self.pm.struct_of(n.func.value) is not None \
                     and chain(arg(n, 0, "buffer")) == self.data:
                 x = self.pm.struct_of(n.func.value)
@@ -221,14 +527,18 @@ class UnpackRun:
                     self.reads.append((lo, Lin.sym("len(data)") - lo, "rest"))
                 else:
                     self.reads.append((lo, self.lin(n.slice.upper) - lo, "bytes"))
+        self.convs |= _addr_conversions([e], self)
 
     def enter_loop(self, loop: ast.For) -> None:
         """The body of `for .. in range(N)` is entered: remember N as a linear form (None when it is not one)."""
         it = strip_cast(loop.iter)
         n = None
-        if isinstance(it, ast.Call) and chain(it.func) == "range" and len(it.args) == 1 and not it.keywords:
+        if isinstance(it, ast.Call) and chain(it.func) == "range" and 1 <= len(it.args) <= 3 and not it.keywords:
             try:
-                n = self.lin(it.args[0])
+                if len(it.args) == 1:
+                    n = self.lin(it.args[0])
+                elif len(it.args) == 2 or const_value(it.args[2]) == 1:
+                    n = self.lin(it.args[1]) - self.lin(it.args[0])       # range(a, b[, 1]): b - a rounds (for b >= a)
             except Unknown:
                 n = None
         self.loops.append((loop, n))
@@ -236,6 +546,143 @@ class UnpackRun:
             if isinstance(t, ast.Name):
                 self.env.pop(t.id, None)
                 self.tuples.pop(t.id, None)
+
+    def value_of(self, x: ast.AST):
+        """What one right-hand side evaluates to on this path: ("tuple", read) | ("lin", Lin) | ("const", closed expr) | None (unknown)."""
+        r = self.wire_tuple(x)
+        if r is not None:
+            return ("tuple", r)
+        b = self.subst(x)
+        cv = const_value(b)
+        if self.closed(b) and not (isinstance(cv, int) and not isinstance(cv, bool)):
+            return ("const", b)          # `self.length_format`, ">4sH", socket.AF_INET, a class: lin() still evaluates it through the binding
+        try:
+            return ("lin", self.lin(x))
+        except Unknown:
+            pass
+        return None
+
+    def assign(self, nm: str, val) -> None:
+        for d in (self.tuples, self.env, self.wire, self.bind):
+            d.pop(nm, None)
+        if val is None:
+            return
+        if val[0] == "tuple":
+            self.tuples[nm] = val[1]
+        elif val[0] == "const":
+            self.bind[nm] = val[1]
+        else:
+            self.env[nm] = val[1]
+            if any(k.startswith("wire") for k in val[1].t):
+                self.wire[nm] = str(val[1])
+
+    # ---- followed helpers: a frame per call, sharing the reads / conditions of the path
+    def push_frame(self, callee: FuncInfo, call: ast.Call, skip_first: bool) -> None:
+        a = callee.node.args
+        if a.vararg or a.kwarg or any(isinstance(x, ast.Starred) for x in call.args) or any(k.arg is None for k in call.keywords):
+            raise Unknown(f"call of helper {callee.qualname} with * / **")
+        params = [x.arg for x in a.posonlyargs + a.args]
+        recv = params[0] if skip_first and params else None
+        pos = params[1:] if skip_first else params
+        if len(call.args) > len(pos):
+            raise Unknown(f"call of helper {callee.qualname}: too many arguments")
+        given: dict[str, ast.AST] = dict(zip(pos, call.args))
+        for k in call.keywords:
+            given[k.arg] = k.value
+        defaults = dict(zip(params[len(params) - len(a.defaults):], a.defaults))
+        for kw, d in zip(a.kwonlyargs, a.kw_defaults):
+            pos.append(kw.arg)
+            if d is not None:
+                defaults[kw.arg] = d
+        env, tuples, bind, data = {}, {}, {}, None
+        for prm in pos:
+            if prm in given:
+                x = given[prm]
+                if chain(x) == self.data and self.data is not None:
+                    data = prm
+                    continue
+                val = self.value_of(x)
+            elif prm in defaults:
+                d = strip_cast(defaults[prm])
+                val = ("const", d)
+                cv = const_value(d)
+                if isinstance(cv, int) and not isinstance(cv, bool):
+                    val = ("lin", Lin(cv))
+            else:
+                raise Unknown(f"call of helper {callee.qualname}: no argument for {prm}")
+            if val is None:
+                continue
+            if val[0] == "tuple":
+                tuples[prm] = val[1]
+            elif val[0] == "lin":
+                env[prm] = val[1]
+            else:
+                bind[prm] = val[1]
+        self.frames.append((self.fi, self.data, self.off, self.env, self.tuples, self.bind, self.wire, recv))
+        self.fi, self.data, self.off = callee, data, None
+        self.env, self.tuples, self.bind, self.wire = env, tuples, bind, {}
+        self.retvals = None
+
+    def finish_frame(self, ret: ast.Return | None) -> None:
+        """The followed helper returns: evaluate its result in its own frame, then restore the caller's frame."""
+        vals = None
+        if ret is not None and ret.value is not None:
+            self.scan_reads(ret.value)
+            v = strip_cast(ret.value)
+            lit = self.subst(v) if isinstance(v, (ast.Name, ast.Subscript)) else v
+            if isinstance(lit, ast.Tuple) and not any(isinstance(x, ast.Starred) for x in lit.elts):
+                vals = [self.value_of(x) for x in lit.elts]
+            else:
+                vals = self.value_of(v)
+        fi, data, off, env, tuples, bind, wire, _ = self.frames.pop()
+        self.fi, self.data, self.off = fi, data, off
+        self.env, self.tuples, self.bind, self.wire = dict(env), dict(tuples), dict(bind), dict(wire)
+        self.retvals = vals
+
+    def enter_while(self, loop: ast.While) -> None:
+        """
+        `while` driven by a counter: `c = N ... while c > 0: ...; c -= 1` (also `while c`, `c != 0`, `c >= 1`) or
+        `i = 0 ... while i < N: ...; i += 1` (also `i != N`, `N > i`): the number of rounds as a linear form, evaluated where the loop starts.
+        """
+        if any(l is loop for l, _ in self.loops):
+            return
+        n = None
+        body_nodes = [x for st in loop.body for x in walk_no_nested(st)]
+        jumps = any(isinstance(x, (ast.Break, ast.Continue)) for x in body_nodes)
+
+        def steps(name: str):
+            """the single top-level `name += k` / `name -= k` of the loop body, if that is the only store to name in the loop"""
+            stores_ = [x for x in body_nodes if isinstance(x, ast.Name) and x.id == name and isinstance(x.ctx, ast.Store)]
+            top = [st for st in loop.body if isinstance(st, ast.AugAssign) and isinstance(st.target, ast.Name) and st.target.id == name
+                   and isinstance(st.op, (ast.Add, ast.Sub)) and const_value(st.value) == 1]
+            if len(stores_) == 1 and len(top) == 1:
+                return 1 if isinstance(top[0].op, ast.Add) else -1
+            return None
+
+        def stored(e: ast.AST) -> bool:
+            names = {x.id for x in ast.walk(e) if isinstance(x, ast.Name)}
+            return any(isinstance(x, ast.Name) and x.id in names and isinstance(x.ctx, ast.Store) for x in body_nodes)
+        t = strip_cast(loop.test)
+        try:
+            if not jumps and not loop.orelse:
+                if isinstance(t, ast.Name) and steps(t.id) == -1:
+                    n = self.lin(t)
+                elif isinstance(t, ast.Compare) and len(t.ops) == 1:
+                    l, op, r = t.left, t.ops[0], t.comparators[0]
+                    if isinstance(op, ast.Lt) or (isinstance(op, ast.LtE)):
+                        l, op, r = r, (ast.Gt() if isinstance(op, ast.Lt) else ast.GtE()), l          # a < b  ==  b > a
+                    if isinstance(l, ast.Name) and steps(l.id) == -1 and ((isinstance(op, (ast.Gt, ast.NotEq)) and const_value(r) == 0)
+                                                                          or (isinstance(op, ast.GtE) and const_value(r) == 1)):
+                        n = self.lin(l)                       # counts down to zero
+                    elif isinstance(r, ast.Name) and steps(r.id) == 1 and isinstance(op, ast.Gt) and not stored(l):
+                        n = self.lin(l) - self.lin(r)         # N > i, i counts up
+                    elif isinstance(op, ast.NotEq):
+                        for i_, n_ in ((l, r), (r, l)):
+                            if isinstance(i_, ast.Name) and steps(i_.id) == 1 and not stored(n_):
+                                n = self.lin(n_) - self.lin(i_)
+        except Unknown:
+            n = None
+        self.loops.append((loop, n))
 
     def define_wire(self, targets: list[str], value: ast.AST) -> None:
         for t in targets:
@@ -265,6 +712,7 @@ class UnpackRun:
                 end = Lin.sym(f"delegate{self.fresh}")
                 self.reads.append((start, end - start, "delegate:" + norm(core.func)))
                 self.delegates.append(core)
+                self.delegate_fmts.append(self.subst(core.args[0]) if core.args else None)
                 self.seen.append(v)
                 names = [norm(e) for e in tg.elts] if isinstance(tg, ast.Tuple) else [norm(tg)]
                 # which target receives the new offset: the last element of a tuple, or the single target
@@ -274,8 +722,21 @@ class UnpackRun:
                 return
             self.scan_reads(v)
             names = [norm(e) for e in tg.elts] if isinstance(tg, (ast.Tuple, ast.List)) else [norm(tg)]
+            lit = self.subst(core) if isinstance(core, (ast.Name, ast.Subscript, ast.Call)) else core
+            if isinstance(tg, (ast.Tuple, ast.List)) and isinstance(lit, (ast.Tuple, ast.List)) and len(lit.elts) == len(tg.elts) \
+                    and not any(isinstance(x, ast.Starred) for x in list(lit.elts) + list(tg.elts)):
+                # simultaneous assignment `a, b = (x, y)` (what is left of a helper that returned a pair; an entry of a constant table):
+                # every right-hand side is evaluated before any target is bound, then each target receives its own element
+                vals = [self.value_of(x) for x in lit.elts]
+                for nm, val in zip(names, vals):
+                    self.assign(nm, val)
+                return
+            if isinstance(tg, ast.Name) and lit is not core and self.closed(lit):
+                self.bind_pattern(tg, lit)          # `fmt = spec[0]` of a bound table entry
+                return
             for nm in names:
                 self.tuples.pop(nm, None)
+                self.bind.pop(nm, None)
             r = self.wire_tuple(core)
             if r is not None:
                 # the target(s) receive the value tuple of one struct read: `a, b = unpack_from(..)` / `t = unpack_from(..)`
@@ -288,22 +749,28 @@ class UnpackRun:
                     self.tuples[names[0]] = r
                 return
             if len(names) == 1:
-                try:
-                    self.env[names[0]] = self.lin(v)        # also `unpack_from(..)[0] * self.base`, `count * self.base`, `offset + self.size`
-                    if any(k.startswith("wire") for k in self.env[names[0]].t):
-                        self.wire[names[0]] = str(self.env[names[0]])
-                except Unknown:
-                    self.env.pop(names[0], None)
+                # also `unpack_from(..)[0] * self.base`, `count * self.base`, `offset + self.size`; a closed constant expression is kept as such
+                self.assign(names[0], self.value_of(v))
             else:
                 for nm in names:
                     self.env.pop(nm, None)
             return
         if isinstance(s, ast.AugAssign) and isinstance(s.target, ast.Name):
-            if isinstance(s.op, ast.Add) and s.target.id in self.env:
+            if s.target.id in self.bind and s.target.id not in self.env:
                 try:
-                    self.env[s.target.id] = self.env[s.target.id] + self.lin(s.value)
+                    self.env[s.target.id] = self.lin(s.target)
+                except Unknown:
+                    pass
+                self.bind.pop(s.target.id, None)
+            if isinstance(s.op, (ast.Add, ast.Sub)) and s.target.id in self.env:
+                try:
+                    d = self.lin(s.value)
+                    self.env[s.target.id] = self.env[s.target.id] + (d if isinstance(s.op, ast.Add) else d.scale(-1))
                 except Unknown:
                     self.env.pop(s.target.id, None)
+            else:
+                self.env.pop(s.target.id, None)
+            self.tuples.pop(s.target.id, None)
             self.scan_reads(s.value)
             return
         if isinstance(s, ast.Return):
@@ -321,26 +788,205 @@ class UnpackRun:
             return
 
 
-def run_unpack_paths(ctx: Ctx, pm: PackerModel, fi: FuncInfo):
+def _with_lookups_resolved(run: UnpackRun, a: ast.AST) -> list[UnpackRun]:
+    """Successors of `run` in which every lookup in a constant dict that occurs in `a` has one definite result (remembered for the path)."""
+    if isinstance(a, (ast.For, ast.While, ast.AsyncFor)):
+        return [run]
+    cands = [x for x in ast.walk(a) if (isinstance(x, ast.Subscript) and not isinstance(x.slice, ast.Slice))
+             or (isinstance(x, ast.Call) and isinstance(x.func, ast.Attribute) and x.func.attr == "get")]
+    if not cands:
+        return [run]
+    runs = [run]
+    for x in cands:
+        nxt = []
+        for r in runs:
+            k = r.memo_key(x)
+            if k is None or k in r.memo:
+                nxt.append(r)
+                continue
+            alts = r.lookup_alternatives(x)         # may raise _Infeasible: the lookup raises KeyError under the assumed tag
+            if alts is None:
+                nxt.append(r)
+                continue
+            for alt in alts:
+                r2 = r.clone() if len(alts) > 1 else r
+                r2.memo[k] = alt
+                nxt.append(r2)
+        runs = nxt
+    return runs
+
+
+_NOT_FOLLOWED = ("unpack", "unpack_from", "pack", "pack_into", "iter_unpack", "calcsize", "unpack_serializable", "unpack_serializable_list",
+                 "pack_serializable", "pack_serializable_list")
+
+
+def _followable(run: UnpackRun, call: ast.Call):
+    """(helper FuncInfo, receiver is implicit) when `call` hands the data buffer to a function of /repo that is not itself a packer's unpack."""
+    if run.data is None or not any(chain(a) == run.data for a in list(call.args) + [k.value for k in call.keywords]):
+        return None
+    f = strip_cast(call.func)
+    if isinstance(f, (ast.Name, ast.Subscript, ast.Call)):
+        f = run.subst(f)                  # a callable picked from a constant dispatch table
+    if (f.attr if isinstance(f, ast.Attribute) else f.id if isinstance(f, ast.Name) else None) in _NOT_FOLLOWED:
+        return None
+    repo = run.pm.ctx.repo
+    k = run.fi.cls or (run.frames[0][0].cls if run.frames else None) or run.pm.cls
+    target, implicit = None, False
+    if isinstance(f, ast.Name):
+        if run._is_local(f.id):
+            return None
+        r = repo.resolve_name(run.fi.module, f.id)
+        if isinstance(r, FuncInfo):
+            target = r
+        elif r is None and k is not None and k.lookup(f.id) is not None:
+            target = k.lookup(f.id)       # a function of the class body, referenced by a class-level table: called with an explicit receiver
+    elif isinstance(f, ast.Attribute) and isinstance(f.value, ast.Name):
+        if f.value.id in ("self", "cls") and k is not None:
+            target = k.lookup(f.attr)
+            implicit = target is not None and "staticmethod" not in {d.split(".")[-1] for d in target.decorator_names()}
+        else:
+            c = repo.resolve_class_expr(run.fi.module, f.value)
+            target = c.lookup(f.attr) if c is not None else None
+            implicit = target is not None and "classmethod" in {d.split(".")[-1] for d in target.decorator_names()}
+    if target is None or target.is_async or any(isinstance(x, (ast.Yield, ast.YieldFrom)) for x in walk_no_nested(target.node)):
+        return None
+    return target, implicit
+
+
+def _call_of(st: ast.AST):
+    """(call, targets | None, kind) for `x = f(..)` / `a, b = f(..)` / `f(..)` / `return f(..)` where the call is the whole value."""
+    if isinstance(st, ast.Assign) and len(st.targets) == 1 and isinstance(strip_cast(st.value), ast.Call):
+        return strip_cast(st.value), st.targets[0], "assign"
+    if isinstance(st, ast.AnnAssign) and st.value is not None and isinstance(strip_cast(st.value), ast.Call):
+        return strip_cast(st.value), st.target, "assign"
+    if isinstance(st, ast.Expr) and isinstance(strip_cast(st.value), ast.Call):
+        return strip_cast(st.value), None, "expr"
+    if isinstance(st, ast.Return) and st.value is not None and isinstance(strip_cast(st.value), ast.Call):
+        return strip_cast(st.value), None, "return"
+    return None
+
+
+def _step(ctx: Ctx, pm: PackerModel, run: UnpackRun, node, lab, depth: int) -> list[UnpackRun]:
+    """One CFG node of a path; several successors when a constant table / a followed helper makes the path fork."""
+    a = node.ast
+    if a is None:
+        return [run]
+    if node.kind in ("cond", "stmt"):
+        forks = _with_lookups_resolved(run, a)
+        if len(forks) != 1 or forks[0] is not run:
+            out = []
+            for r in forks:
+                try:
+                    out.extend(_step_one(ctx, pm, r, node, lab, depth))
+                except _Infeasible:
+                    continue
+            return out
+    return _step_one(ctx, pm, run, node, lab, depth)
+
+
+def _step_one(ctx: Ctx, pm: PackerModel, run: UnpackRun, node, lab, depth: int) -> list[UnpackRun]:
+    a = node.ast
+    if node.kind == "cond":
+        run.cond(a, lab)
+        return [run]
+    if node.kind == "loop" and isinstance(a, ast.For):
+        entries = run.table_entries(a.iter)
+        entered = any(l is a for l, _ in run.loops)
+        if lab is True:
+            if entries is not None and all(run.closed(x) for x in entries):
+                out = []
+                for x in entries:          # the body runs for an entry of the constant table: one successor per entry
+                    r = run.clone()
+                    r.enter_loop(a)
+                    r.bind_pattern(a.target, x)
+                    out.append(r)
+                return out
+            run.enter_loop(a)
+        elif lab is False and entries and not entered:
+            raise _Infeasible             # a non-empty constant table is never skipped
+        return [run]
+    if node.kind == "loop" and isinstance(a, ast.While):
+        run.enter_while(a)
+        return [run]
+    if node.kind != "stmt":
+        return [run]
+    # a helper that receives the data buffer: its paths are run in a frame of their own, on the same reads / conditions
+    cc = _call_of(a)
+    if cc is not None:
+        call, tgt, kind = cc
+        fol = _followable(run, call)
+        if fol is not None:
+            if depth >= 3:
+                raise Unknown(f"helper calls nested deeper than 3 at `{norm(call)[:50]}`")
+            callee, implicit = fol
+            run.seen.append(call)
+            for x in list(call.args) + [k.value for k in call.keywords]:
+                run.scan_reads(x)
+            sub = run.clone()
+            sub.push_frame(callee, call, implicit)
+            out = []
+            for fin, err in _exec_paths(ctx, pm, callee, sub, depth + 1):
+                if err:
+                    raise Unknown(f"in helper {callee.qualname}: {err[len('unknown: '):] if err.startswith('unknown: ') else err}")
+                vals = fin.retvals
+                if kind == "return" and fin.frames:
+                    fin.finish_frame(None)          # `return helper(..)` inside a followed helper: hand the value on to its caller
+                    fin.retvals = vals
+                elif kind == "return":
+                    if not (isinstance(vals, tuple) and vals[0] == "lin"):
+                        raise Unknown(f"helper {callee.qualname} does not return an offset to `{norm(a)[:40]}`")
+                    fin.ret, fin.ret_node = vals[1], a
+                elif kind == "assign":
+                    if isinstance(tgt, (ast.Tuple, ast.List)):
+                        if isinstance(vals, list) and len(vals) == len(tgt.elts):
+                            for t, v in zip(tgt.elts, vals):
+                                fin.assign(norm(t), v)
+                        else:
+                            for t in tgt.elts:
+                                fin.assign(norm(t), None)
+                    else:
+                        fin.assign(norm(tgt), vals if isinstance(vals, tuple) else None)
+                out.append(fin)
+            return out
+    if isinstance(a, ast.Return) and run.frames:
+        run.finish_frame(a)
+        return [run]
+    run.stmt(a)
+    return [run]
+
+
+def _exec_paths(ctx: Ctx, pm: PackerModel, fi: FuncInfo, start: UnpackRun, depth: int = 0):
+    """All normally returning paths of fi, started in the state `start` (a fresh run, or the frame of a followed helper)."""
     cfg = ctx.cfg(fi)
     out = []
+    nframes = len(start.frames)
     for path in cfg.paths(limit=400):
         if path[-1][0] is not cfg.exit:
             continue
-        run = UnpackRun(pm, fi)
-        try:
-            for node, lab in path:
-                if node.kind in ("stmt",) and node.ast is not None:
-                    run.stmt(node.ast)
-                elif node.kind == "cond" and node.ast is not None:
-                    run.scan_reads(node.ast)
-                elif node.kind == "loop" and isinstance(node.ast, ast.For) and lab is True:
-                    run.enter_loop(node.ast)
-        except Unknown as u:
-            out.append((run, f"unknown: {u}"))
-            continue
-        out.append((run, None))
+        states = [start.clone()]
+        for node, lab in path:
+            nxt = []
+            for run in states:
+                try:
+                    nxt.extend(_step(ctx, pm, run, node, lab, depth))
+                except _Infeasible:
+                    continue
+                except Unknown as u:
+                    out.append((run, f"unknown: {u}"))
+            states = nxt
+            if len(states) > 64:
+                raise AnalysisError(f"undecided: packer-symmetry: {fi.qualname}: more than 64 alternatives on one path")
+        for run in states:
+            if nframes and len(run.frames) == nframes:
+                run.finish_frame(None)        # the helper ends without `return`: it hands back None
+            out.append((run, None))
     return out
+
+
+def run_unpack_paths(ctx: Ctx, pm: PackerModel, fi: FuncInfo, assume=None):
+    start = UnpackRun(pm, fi)
+    start.assume = assume
+    return _exec_paths(ctx, pm, fi, start)
 
 
 def check_tiling(run: UnpackRun) -> str | None:
@@ -357,42 +1003,281 @@ def check_tiling(run: UnpackRun) -> str | None:
 
 
 # ------------------------------------------------------------------------------------------ pack side
-def pack_pieces(fi: FuncInfo, pm: PackerModel | None = None):
-    """Pieces written by a pack method: list of alternatives, each a list of ('struct', fmt_text, [arg texts]) / ('bytes', text) / ('delegate', text)."""
-    alts = []
-    for r in [r for r in walk_no_nested(fi.node) if isinstance(r, ast.Return) and r.value is not None]:
-        pieces = []
+class _PackState:
+    """What is known at one point of one path through a pack method."""
 
-        def flat(e):
-            e = strip_cast(e)
-            if isinstance(e, ast.BinOp) and isinstance(e.op, ast.Add):
-                flat(e.left)
-                flat(e.right)
-                return
-            if isinstance(e, ast.Call) and chain(e.func) in ("pack", "struct.pack"):
-                f = e.args[0]
-                ft = const_value(f) if isinstance(const_value(f), str) else ("".join(v.value if isinstance(v, ast.Constant) else "{n}" for v in f.values) if isinstance(f, ast.JoinedStr) else norm(f))
-                pieces.append(("struct", ft, [norm(a) for a in e.args[1:]], list(e.args[1:])))
-                return
-            if pm is not None and isinstance(e, ast.Call) and isinstance(e.func, ast.Attribute) and e.func.attr == "pack" and pm.struct_of(e.func.value) is not None:
-                pieces.append(("struct", pm.struct_fmt_text(pm.struct_of(e.func.value)), [norm(a) for a in e.args], list(e.args)))
-                return
-            if isinstance(e, ast.Name) and single_def(fi, e.id) is not None and e.id not in fi.params():
-                flat(single_def(fi, e.id)[0])
-                return
-            if isinstance(e, ast.Call) and call_name(e) in ("pack", "pack_serializable") and not chain(e.func) in ("pack", "struct.pack"):
-                pieces.append(("delegate", norm(e), e))
-                return
-            pieces.append(("bytes", norm(e)))
-        flat(r.value)
-        alts.append(pieces)
-    return alts
+    def __init__(self) -> None:
+        self.bytes: dict[str, list] = {}       # local -> pieces of the byte string it holds
+        self.lists: dict[str, list] = {}       # local -> list of piece-lists (a list of byte strings under construction)
+        self.defs: dict[str, ast.AST] = {}     # local -> expression it stands for (locals inside already expanded)
+
+    def copy(self) -> "_PackState":
+        n = _PackState()
+        n.bytes = {k: list(v) for k, v in self.bytes.items()}
+        n.lists = {k: [list(x) for x in v] for k, v in self.lists.items()}
+        n.defs = dict(self.defs)
+        return n
+
+
+class _Expand(ast.NodeTransformer):
+    def __init__(self, defs: dict[str, ast.AST]) -> None:
+        self.defs = defs
+
+    def visit_Name(self, n: ast.Name):
+        if isinstance(n.ctx, ast.Load) and n.id in self.defs:
+            return clone(self.defs[n.id])
+        return n
+
+
+class PackRun:
+    """
+    The byte string a pack method returns, as pieces, for every way through its statements: locals are followed through plain and
+    augmented assignments, `b"".join([...])`, lists of parts that are appended to / extended, conditionals, with / try blocks (a
+    suppressed or handled exception continues after the block) and loops (the body is taken once: the general iteration).
+    Pieces: ('struct', format text, [argument texts], [argument expressions, locals expanded]) | ('bytes', text) | ('delegate', text, call).
+    """
+
+    LIMIT = 256
+
+    def __init__(self, fi: FuncInfo, pm: PackerModel | None) -> None:
+        self.fi = fi
+        self.pm = pm
+        self.alts: list[tuple[ast.Return, list]] = []
+
+    # ---- expressions
+    def expand(self, e: ast.AST, st: _PackState) -> ast.AST:
+        if not any(isinstance(n, ast.Name) and n.id in st.defs for n in ast.walk(e)):
+            return e
+        return ast.fix_missing_locations(_Expand(st.defs).visit(clone(e)))
+
+    def _fmt_text(self, f: ast.AST) -> str:
+        if isinstance(const_value(f), str):
+            return const_value(f)
+        if isinstance(f, ast.JoinedStr):
+            return "".join(v.value if isinstance(v, ast.Constant) else "{n}" for v in f.values)
+        return norm(f)
+
+    def pieces(self, e: ast.AST, st: _PackState) -> list:
+        e = strip_cast(e)
+        if isinstance(e, ast.BinOp) and isinstance(e.op, ast.Add):
+            return self.pieces(e.left, st) + self.pieces(e.right, st)
+        if isinstance(e, ast.Call) and chain(e.func) in ("pack", "struct.pack") and e.args and not e.keywords:
+            f = self.expand(e.args[0], st)
+            args = [self.expand(a, st) for a in e.args[1:]]
+            return [("struct", self._fmt_text(f), [norm(a) for a in args], args)]
+        if self.pm is not None and isinstance(e, ast.Call) and isinstance(e.func, ast.Attribute) and e.func.attr == "pack" and self.pm.struct_of(e.func.value) is not None:
+            args = [self.expand(a, st) for a in e.args]
+            return [("struct", self.pm.struct_fmt_text(self.pm.struct_of(e.func.value)), [norm(a) for a in args], args)]
+        if isinstance(e, ast.Name):
+            if e.id in st.bytes:
+                return list(st.bytes[e.id])
+            return [("bytes", e.id)]
+        if isinstance(e, ast.Call) and isinstance(e.func, ast.Attribute) and e.func.attr == "join" and len(e.args) == 1 and not e.keywords \
+                and (const_value(e.func.value) == b"" or (isinstance(e.func.value, ast.Call) and chain(e.func.value.func) == "bytes" and not e.func.value.args)):
+            x = strip_cast(e.args[0])
+            if isinstance(x, (ast.List, ast.Tuple)) and not any(isinstance(y, ast.Starred) for y in x.elts):
+                return [p for y in x.elts for p in self.pieces(y, st)]
+            if isinstance(x, ast.Name) and x.id in st.lists:
+                return [p for part in st.lists[x.id] for p in part]
+            return [("bytes", norm(e))]
+        if isinstance(e, ast.Call) and call_name(e) in ("pack", "pack_serializable"):
+            return [("delegate", norm(e), e)]
+        return [("bytes", norm(e))]
+
+    # ---- statements
+    def block(self, stmts, states: list[_PackState]) -> list[_PackState]:
+        for s in stmts:
+            nxt: list[_PackState] = []
+            for st in states:
+                nxt.extend(self.step(s, st))
+            states = nxt
+            if len(states) > self.LIMIT:
+                raise AnalysisError(f"undecided: packer-symmetry: {self.fi.qualname}: more than {self.LIMIT} ways through the method")
+        return states
+
+    def _closed(self, e: ast.AST) -> bool:
+        return not any(isinstance(n, ast.Name) and (n.id in self.fi.params() or local_defs(self.fi, n.id)) and n.id not in ("self", "cls") for n in ast.walk(e)) \
+            and not any(isinstance(n, (ast.Call, ast.Lambda, ast.ListComp, ast.GeneratorExp, ast.DictComp, ast.SetComp, ast.Await, ast.NamedExpr)) for n in ast.walk(e))
+
+    def _bind(self, st: _PackState, tgt: ast.AST, value: ast.AST) -> None:
+        value = strip_cast(value)
+        if isinstance(tgt, ast.Name):
+            self._forget(st, tgt.id)
+            st.defs[tgt.id] = value
+        elif isinstance(tgt, (ast.Tuple, ast.List)) and isinstance(value, (ast.Tuple, ast.List)) and len(tgt.elts) == len(value.elts) \
+                and not any(isinstance(x, ast.Starred) for x in list(tgt.elts) + list(value.elts)):
+            for t, v in zip(tgt.elts, value.elts):
+                self._bind(st, t, v)
+        else:
+            for n in ast.walk(tgt):
+                if isinstance(n, ast.Name):
+                    self._forget(st, n.id)
+
+    @staticmethod
+    def _forget(st: _PackState, name: str) -> None:
+        st.bytes.pop(name, None)
+        st.lists.pop(name, None)
+        st.defs.pop(name, None)
+        # (definitions are expanded when they are made: the remaining ones do not refer to this local's later values)
+
+    def _assign_name(self, st: _PackState, name: str, value: ast.AST, pre: _PackState) -> None:
+        core = strip_cast(value)
+        pcs = self.pieces(core, pre)
+        lst = None
+        if isinstance(core, (ast.List, ast.Tuple)) and not any(isinstance(y, ast.Starred) for y in core.elts):
+            lst = [self.pieces(y, pre) for y in core.elts]
+        elif isinstance(core, ast.Name) and core.id in pre.lists:
+            lst = pre.lists[core.id]                  # the same list object under another name
+        elif isinstance(core, ast.Call) and chain(core.func) == "list" and not core.args and not core.keywords:
+            lst = []
+        d = self.expand(core, pre)
+        self._forget(st, name)
+        st.bytes[name] = pcs
+        if lst is not None:
+            st.lists[name] = lst
+        if not any(isinstance(n, (ast.Await, ast.Yield, ast.YieldFrom, ast.NamedExpr)) for n in ast.walk(d)):
+            st.defs[name] = d
+
+    def step(self, s: ast.stmt, st: _PackState) -> list[_PackState]:  # noqa: C901, PLR0911, PLR0912
+        if isinstance(s, (ast.Assign, ast.AnnAssign)):
+            if s.value is None:
+                return [st]
+            tgts = s.targets if isinstance(s, ast.Assign) else [s.target]
+            pre = st.copy()
+            for tg in tgts:
+                core = strip_cast(s.value)
+                if isinstance(tg, ast.Name):
+                    self._assign_name(st, tg.id, s.value, pre)
+                elif isinstance(tg, (ast.Tuple, ast.List)) and not any(isinstance(t, ast.Starred) for t in tg.elts):
+                    same = isinstance(core, (ast.Tuple, ast.List)) and len(core.elts) == len(tg.elts) and not any(isinstance(y, ast.Starred) for y in core.elts)
+                    for i, t in enumerate(tg.elts):
+                        if not isinstance(t, ast.Name):
+                            continue
+                        if same:
+                            self._assign_name(st, t.id, core.elts[i], pre)
+                        else:
+                            sub = ast.Subscript(value=core, slice=ast.Constant(value=i), ctx=ast.Load())
+                            self._assign_name(st, t.id, ast.copy_location(sub, core), pre)
+                else:
+                    for n in ast.walk(tg):
+                        if isinstance(n, ast.Name) and isinstance(n.ctx, ast.Store):
+                            self._forget(st, n.id)
+            return [st]
+        if isinstance(s, ast.AugAssign):
+            if isinstance(s.target, ast.Name):
+                name = s.target.id
+                if isinstance(s.op, ast.Add):
+                    add = self.pieces(s.value, st)
+                    v = strip_cast(s.value)
+                    if name in st.lists and isinstance(v, (ast.List, ast.Tuple)) and not any(isinstance(y, ast.Starred) for y in v.elts):
+                        st.lists[name] = st.lists[name] + [self.pieces(y, st) for y in v.elts]
+                    elif name in st.lists:
+                        st.lists[name] = st.lists[name] + [[("bytes", norm(v))]]
+                    st.bytes[name] = st.bytes.get(name, [("bytes", name)]) + add
+                    st.defs.pop(name, None)
+                else:
+                    self._forget(st, name)
+            return [st]
+        if isinstance(s, ast.Expr):
+            c = strip_cast(s.value)
+            if isinstance(c, ast.Call) and isinstance(c.func, ast.Attribute) and isinstance(c.func.value, ast.Name) and c.func.value.id in st.lists and not c.keywords:
+                name, meth = c.func.value.id, c.func.attr
+                lst = st.lists[name]
+                if meth == "append" and len(c.args) == 1:
+                    lst.append(self.pieces(c.args[0], st))
+                elif meth == "extend" and len(c.args) == 1:
+                    v = strip_cast(c.args[0])
+                    if isinstance(v, (ast.List, ast.Tuple)) and not any(isinstance(y, ast.Starred) for y in v.elts):
+                        lst.extend(self.pieces(y, st) for y in v.elts)
+                    else:
+                        lst.append([("bytes", norm(v))])
+                elif meth == "insert" and len(c.args) == 2 and isinstance(const_value(c.args[0]), int) and not isinstance(const_value(c.args[0]), bool):
+                    lst.insert(const_value(c.args[0]), self.pieces(c.args[1], st))
+                else:
+                    st.lists.pop(name, None)
+                st.bytes.pop(name, None)
+                st.defs.pop(name, None)
+            return [st]
+        if isinstance(s, ast.Return):
+            if s.value is not None:
+                self.alts.append((s, self.pieces(s.value, st)))
+            return []
+        if isinstance(s, ast.Raise):
+            return []
+        if isinstance(s, ast.If):
+            return self.block(s.body, [st.copy()]) + self.block(s.orelse, [st.copy()])
+        if isinstance(s, (ast.With, ast.AsyncWith)):
+            inner = st.copy()
+            for it in s.items:
+                if it.optional_vars is not None:
+                    for n in ast.walk(it.optional_vars):
+                        if isinstance(n, ast.Name):
+                            self._forget(inner, n.id)
+            out = self.block(s.body, [inner])
+            if any(isinstance(it.context_expr, ast.Call) and (call_name(it.context_expr) or "").split(".")[-1] == "suppress" for it in s.items):
+                out = out + [st.copy()]        # the exception was suppressed: execution continues after the block
+            return out
+        if isinstance(s, ast.Try) or s.__class__.__name__ == "TryStar":
+            body = self.block(s.body, [st.copy()])
+            out = self.block(s.orelse, body)
+            for h in s.handlers:
+                hs = st.copy()
+                if h.name:
+                    self._forget(hs, h.name)
+                out = out + self.block(h.body, [hs])
+            return self.block(s.finalbody, out) if s.finalbody else out
+        if isinstance(s, (ast.For, ast.AsyncFor, ast.While)):
+            starts = []
+            entries = None
+            if isinstance(s, ast.For) and self.pm is not None:
+                repo = self.pm.ctx.repo
+                entries = table_entries(lambda x: const_display(repo, self.fi, self.fi.cls or self.pm.cls, self.expand(x, st)), s.iter)
+            if entries is not None and all(self._closed(x) for x in entries):
+                for x in entries:              # a scan of a constant table: the body runs for an entry, one alternative per entry
+                    inner = st.copy()
+                    self._bind(inner, s.target, x)
+                    starts.append(inner)
+            else:
+                inner = st.copy()
+                if not isinstance(s, ast.While):
+                    for n in ast.walk(s.target):
+                        if isinstance(n, ast.Name):
+                            self._forget(inner, n.id)
+                starts.append(inner)
+            out = self.block(s.body, starts) or [st]
+            return self.block(s.orelse, out) if s.orelse else out
+        if isinstance(s, ast.Match):
+            out = [st.copy()]
+            for case in s.cases:
+                out = out + self.block(case.body, [st.copy()])
+            return out
+        return [st]
+
+
+def pack_pieces(fi: FuncInfo, pm: PackerModel | None = None):
+    """Pieces written by a pack method: list of alternatives (one per way to a `return`, duplicates removed), each a list of
+    ('struct', fmt_text, [arg texts], [arg exprs]) / ('bytes', text) / ('delegate', text, call)."""
+    run = PackRun(fi, pm)
+    run.block(fi.node.body, [_PackState()])
+    seen = set()
+    out = []
+    for ret, pcs in sorted(run.alts, key=lambda x: (x[0].lineno, x[0].col_offset)):
+        key = (id(ret), tuple((p[0], p[1], tuple(p[2]) if p[0] == "struct" else None) for p in pcs))
+        if key in seen:
+            continue
+        seen.add(key)
+        out.append(pcs)
+    return out
 
 
 def _len_unit(fi: FuncInfo, e: ast.AST):
     """('len', unit) when e is `len(<the packed value>)` (unit '1') or `len(<the packed value>) // U` (unit = text of U); else the text of e."""
     e = resolve(fi, e)
     unit = "1"
+    if isinstance(e, ast.Subscript) and const_value(e.slice) == 0 and isinstance(strip_cast(e.value), ast.Call) and chain(strip_cast(e.value).func) == "divmod" \
+            and len(strip_cast(e.value).args) == 2:
+        q = strip_cast(e.value)           # divmod(a, b)[0] == a // b
+        e = ast.copy_location(ast.BinOp(left=q.args[0], op=ast.FloorDiv(), right=q.args[1]), e)
     if isinstance(e, ast.BinOp) and isinstance(e.op, ast.FloorDiv):
         unit = norm(e.right)
         e = resolve(fi, e.left)
@@ -415,7 +1300,8 @@ def _addr_conversions(exprs, run) -> set:
             if n in ("inet_aton", "inet_ntoa") and c.args:
                 fam, operand = ("legacy", "AF_INET"), c.args[0]
             elif n in ("inet_pton", "inet_ntop") and len(c.args) >= 2:
-                fam, operand = ("strict", (chain(c.args[0]) or norm(c.args[0])).split(".")[-1]), c.args[1]
+                fexpr = run.subst(c.args[0]) if run is not None else c.args[0]
+                fam, operand = ("strict", (chain(fexpr) or norm(fexpr)).split(".")[-1]), c.args[1]
             else:
                 continue
             whole = "whole-field"
@@ -427,6 +1313,37 @@ def _addr_conversions(exprs, run) -> set:
                     whole = "derived"
             out.add((*fam, whole))
     return out
+
+
+def _canonical_init_text(init: FuncInfo, e: ast.AST, own_attr: str = "") -> str:
+    """
+    Text of an expression of a constructor with single-assignment locals expanded and every sub-expression that equals the value stored in
+    `self.X` (stored exactly once) written as `self.X`: `probe = array(real); self.real_format_str = real; .. probe.itemsize` reads
+    `array(self.real_format_str).itemsize`.
+    """
+    def expand(x: ast.AST, depth: int = 0) -> ast.AST:
+        class Ex(ast.NodeTransformer):
+            def visit_Name(self, n: ast.Name):
+                if isinstance(n.ctx, ast.Load) and depth < 6:
+                    d = single_def(init, n.id)
+                    if d is not None and d[1] is None and n.id not in init.params():
+                        return expand(d[0], depth + 1)
+                return n
+        return Ex().visit(clone(strip_cast(x)))
+    stored: dict[str, list] = {}
+    for st in walk_no_nested(init.node):
+        if isinstance(st, ast.Assign) and len(st.targets) == 1 and isinstance(st.targets[0], ast.Attribute) and chain(st.targets[0]) == f"self.{st.targets[0].attr}":
+            stored.setdefault(st.targets[0].attr, []).append(st.value)
+    canon = {ast.dump(expand(v[0])): a for a, v in stored.items() if a != own_attr and len(v) == 1 and
+             (not isinstance(strip_cast(v[0]), (ast.Constant, ast.Name)) or (isinstance(strip_cast(v[0]), ast.Name) and single_def(init, strip_cast(v[0]).id) is not None))}
+
+    class Fold(ast.NodeTransformer):
+        def generic_visit(self, n):
+            if isinstance(n, ast.expr) and ast.dump(n) in canon:
+                return ast.Attribute(value=ast.Name(id="self", ctx=ast.Load()), attr=canon[ast.dump(n)], ctx=ast.Load())
+            return super().generic_visit(n)
+    out = Fold().visit(expand(e))
+    return norm(ast.fix_missing_locations(out))
 
 
 def _struct_chars(fmt: str) -> str:
@@ -509,7 +1426,7 @@ def _layout_agreement(ctx: Ctx, cls: ClassInfo, pk: FuncInfo, un: FuncInfo, alts
     # ---- unit of the length prefix
     if cls.name in ("VarLen", "DefaultArray"):
         # pack: the prefix counts len(data) in units of U;  unpack: the bytes taken after the prefix number (prefix value) * U
-        lens = [_len_unit(pk, p[3][0]) for a in alts for p in a if p[0] == "struct" and p[3]]
+        lens = list(dict.fromkeys(_len_unit(pk, p[3][0]) for a in alts for p in a if p[0] == "struct" and p[3]))
         mult = set()
         shape_ok = True
         for r, _ in runs:
@@ -527,16 +1444,19 @@ def _layout_agreement(ctx: Ctx, cls: ClassInfo, pk: FuncInfo, un: FuncInfo, alts
             ok = lens == [("len", "1")] and shape_ok and mult == {want_unit}
             init = cls.methods["__init__"]
             b = [s for s in walk_no_nested(init.node) if isinstance(s, ast.Assign) and chain(s.targets[0]) == "self.base"]
-            ok = ok and len(b) == 1 and norm(b[0].value) == "array(self.real_format_str).itemsize"
+            ok = ok and len(b) == 1 and _canonical_init_text(init, b[0].value, "base") == "array(self.real_format_str).itemsize"
             ctx.check(ok, "packer-symmetry", pk, pk.node, "DefaultArray: prefix = item count, byte length = count * itemsize",
                       f"DefaultArray: item count / byte length units differ between pack ({lens}) and unpack (bytes taken: {sorted(mult)})")
     if cls.name == "ListOf":
-        cnt = [_len_unit(pk, p[3][0]) for a in alts for p in a if p[0] == "struct" and p[3]]
+        cnt = list(dict.fromkeys(_len_unit(pk, p[3][0]) for a in alts for p in a if p[0] == "struct" and p[3]))
         # the count read with the length format drives the one loop; the inner packer is run on the threaded offset
-        odd = [l for l in walk_no_nested(un.node) if isinstance(l, (ast.While, ast.AsyncFor))
-               or (isinstance(l, ast.For) and not (isinstance(strip_cast(l.iter), ast.Call) and chain(strip_cast(l.iter).func) == "range"))]
+        # (the number of rounds of the loop is a linear form over the wire values: `for .. in range(n)`, `range(0, n)`, a counting `while`)
+        loops_seen = {id(l): (l, n) for r, _ in runs for l, n in r.loops}
+        odd = [l for l in walk_no_nested(un.node) if isinstance(l, (ast.While, ast.For, ast.AsyncFor)) and (id(l) not in loops_seen or loops_seen[id(l)][1] is None)
+               and any(call_name(c) == "unpack" for c in calls(l))]
         if odd:
-            raise AnalysisError(f"undecided: packer-symmetry: ListOf.unpack repeats the inner packer with `{norm(odd[0])[:60]}`; only `for .. in range(count)` is decided")
+            raise AnalysisError(f"undecided: packer-symmetry: ListOf.unpack repeats the inner packer with `{norm(odd[0])[:60]}`; only a loop whose number of rounds "
+                                "is a linear form (`for .. in range(count)`, a counting `while`) is decided")
         looped = [r for r, _ in runs if r.loops]
         ok = cnt == [("len", "1")] and bool(looped)
         for r, _ in runs:
@@ -550,7 +1470,7 @@ def _layout_agreement(ctx: Ctx, cls: ClassInfo, pk: FuncInfo, un: FuncInfo, alts
             # threaded: the new offset returned by the inner packer is stored in the very variable that is passed as its offset
             st = enclosing_stmt(inner[0])
             ok = isinstance(st, ast.Assign) and strip_cast(st.value) is inner[0] and [chain(t) for t in st.targets] == [inner[0].args[1].id] \
-                and any(isinstance(a, ast.For) for a in ancestors(inner[0]))
+                and any(id(a) in loops_seen for a in ancestors(inner[0]))
         ctx.check(ok, "packer-symmetry", un, un.node, "ListOf: count prefix = number of items; the inner packer runs count times on the threaded offset",
                   "ListOf: the item count on the wire does not drive the number of inner unpacks / the offset is not threaded")
     if cls.name == "VarLenUtf8":
@@ -559,89 +1479,96 @@ def _layout_agreement(ctx: Ctx, cls: ClassInfo, pk: FuncInfo, un: FuncInfo, alts
             return isinstance(c, ast.Call) and isinstance(c.func, ast.Attribute) and c.func.attr == meth and not c.keywords \
                 and (not c.args or (len(c.args) == 1 and str(const_value(c.args[0])).lower().replace("-", "") == "utf8"))
         value_param = pk.params()[1]
+        parents = {k.name for k in cls.mro()[1:]}
+
+        def parent_call(c: ast.Call, meth: str):
+            """arguments of `super().<meth>(..)` / `<Base>.<meth>(self, ..)`, else None"""
+            if chain(c.func) == f"super().{meth}":
+                return list(c.args)
+            if isinstance(c.func, ast.Attribute) and c.func.attr == meth and isinstance(c.func.value, ast.Name) and c.func.value.id in parents \
+                    and c.args and chain(c.args[0]) == "self":
+                return list(c.args[1:])
+            return None
         enc = False
         for c in calls(pk):
-            if chain(c.func) == "super().pack" and len(c.args) == 1:
-                a = resolve(pk, c.args[0])
+            pa = parent_call(c, "pack")
+            if pa is not None and len(pa) == 1:
+                a = resolve(pk, pa[0])
                 enc = enc or (utf8_call(pk, a, "encode") and chain(resolve(pk, a.func.value)) == value_param)
-        dec = any(utf8_call(un, c, "decode") for c in calls(un)) and any(chain(c.func) == "super().unpack" for c in calls(un))
+        dec = any(utf8_call(un, c, "decode") for c in calls(un)) and any(parent_call(c, "unpack") is not None for c in calls(un))
         ctx.check(enc and dec, "packer-symmetry", pk, pk.node, "VarLenUtf8: encode() on pack, decode() on unpack around VarLen", "VarLenUtf8 does not pair encode/decode around VarLen")
     if cls.name == "Address":
         consts = ctx.repo.module(SER).constants
         vals = {k: ctx.repo.resolve_const(ctx.repo.module(SER), consts[k]) for k in ("ADDRESS_TYPE_IPV4", "ADDRESS_TYPE_DOMAIN_NAME", "ADDRESS_TYPE_IPV6")}
         ok = len(set(vals.values())) == 3
-        tags_p = sorted(p[2][0] for a in alts for p in a if p[0] == "struct")
+        tags_p = sorted({p[2][0] for a in alts for p in a if p[0] == "struct" and p[2]})
         ctx.check(ok and tags_p == sorted(vals), "packer-symmetry", pk, pk.node, f"Address: three distinct type tags {vals}, each written by one pack branch",
                   f"Address: type tags {vals} / written {tags_p}")
-        # each unpack branch is selected by the tag that the matching pack branch writes, and reads the layout that branch wrote
-        cfg = ctx.cfg(un)
-        from ..match import facts_at
-
-        def tag_of(run):
-            """Name of the tag constant the first byte (struct '>B' at offset) is known to equal when this path returns."""
-            if run.ret_node is None or not run.reads or run.reads[0][0] != Lin.sym("offset") or _struct_chars(run.reads[0][2][len("struct:"):]) != "B":
-                return None
-            tags = set()
-            for f in facts_at(cfg, run.ret_node):
-                if f.op != "eq" or not f.pos:
-                    continue
-                for x, y in ((f.left, f.right), (f.right, f.left)):
-                    try:
-                        is_tag_byte = run.lin(x) == run.wsym(0, 0)
-                    except Unknown:
-                        is_tag_byte = False
-                    if is_tag_byte and chain(y) in vals:
-                        tags.add(chain(y))
-            return tags.pop() if len(tags) == 1 else None
-        layout_p = {p[2][0]: chars_of_pack(a) for a in alts for p in a[:1] if p[0] == "struct" and p[2]}
+        # each unpack branch is selected by the tag that the matching pack branch writes, and reads the layout that branch wrote.
+        # Decided per tag value: the first wire byte is ASSUMED to be that tag; conditions on it (==, in, lookups in constant tables,
+        # scans of constant tables) are evaluated, paths they exclude are dropped, and every remaining returning path must read
+        # the layout pack writes for the tag - however the selection is spelled (if-chain, single exit, table, helper).
+        if any(isinstance(x, ast.Match) for x in walk_no_nested(un.node)):
+            raise AnalysisError("undecided: packer-symmetry: Address.unpack selects the layout with a match statement")
+        pm = PackerModel(ctx, un.cls)
+        layout_p: dict = {}
+        conv_p: dict = {}
+        for a in alts:
+            for p in a[:1]:
+                if p[0] == "struct" and p[2]:
+                    layout_p.setdefault(p[2][0], set()).add(chars_of_pack(a))
+                    conv_p.setdefault(p[2][0], set()).update(c for q in a if q[0] == "struct" for c in _addr_conversions(q[3], None))
         layout_u: dict = {}
         conv_u: dict = {}
-        untagged = 0
-        for r, _ in runs:
-            t = tag_of(r)
-            if t is None:
-                untagged += 1
-                continue
-            # "B" "4sH" -> "B4sH";  "B" "H" "{n}s" "H" -> "BH{n}sH"
-            layout_u.setdefault(t, set()).add(chars_of_run(r))
-            conv_u.setdefault(t, set()).update(_addr_conversions(r.seen, r))
-        sizes = {t: sorted(str(r.ret - Lin.sym("offset")) for r, _ in runs if tag_of(r) == t) for t in layout_u}
-        ok = untagged == 0 and {t: {v} for t, v in layout_p.items()} == layout_u
-        ctx.check(ok, "packer-symmetry", un, un.node, f"Address.unpack: every returning path is selected by one tag and reads the layout pack writes for that tag {layout_p} (sizes {sizes})",
-                  f"Address.unpack tag/layout pairing is { {t: sorted(v) for t, v in layout_u.items()} } ({untagged} returning paths without a tag), pack writes {layout_p}")
+        sizes: dict = {}
+        for t in [*sorted(vals), "<other>"]:
+            for r, err in run_unpack_paths(ctx, pm, un, assume=(vals, t)):
+                if err:
+                    raise AnalysisError(f"packer-symmetry: Address.unpack (tag {t}): {err}")
+                layout_u.setdefault(t, set()).add(chars_of_run(r))
+                conv_u.setdefault(t, set()).update(r.convs)
+                sizes.setdefault(t, set()).add(str(r.ret - Lin.sym("offset")) if r.ret is not None else "?")
+        untagged = len(layout_u.pop("<other>", ()))
+        conv_u.pop("<other>", None)
+        ok = untagged == 0 and layout_p == layout_u and all(len(v) == 1 for v in layout_p.values())
+        shown_p = {t: sorted(v) for t, v in layout_p.items()}
+        ctx.check(ok, "packer-symmetry", un, un.node,
+                  f"Address.unpack: every returning path is selected by one tag and reads the layout pack writes for that tag {shown_p} (sizes { {t: sorted(v) for t, v in sizes.items() if t != '<other>'} })",
+                  f"Address.unpack tag/layout pairing is { {t: sorted(v) for t, v in layout_u.items()} } ({untagged} returning layouts for a first byte that is no tag), pack writes {shown_p}")
         # per tag, the text conversion is the inverse partner of the one pack used for that tag, applied to the whole field: what was decoded
         # under tag T must be encoded under tag T again (pack chooses the tag by which inet_pton family accepts the host string)
-        conv_p = {p[2][0]: _addr_conversions(p[3], None) for a in alts for p in a[:1] if p[0] == "struct" and p[2]}
         for t in sorted(set(conv_p) | set(conv_u)):
-            ctx.check(conv_p.get(t) == conv_u.get(t), "packer-symmetry", un, f"Address tag {t}", f"Address tag {t}: unpack converts with {sorted(conv_u.get(t, ()))} = partner of pack",
+            ctx.check(conv_p.get(t, set()) == conv_u.get(t, set()), "packer-symmetry", un, f"Address tag {t}", f"Address tag {t}: unpack converts with {sorted(conv_u.get(t, ()))} = partner of pack",
                       f"Address.unpack under tag {t} converts the host with {sorted(conv_u.get(t, ()))} but Address.pack writes tag {t} for hosts accepted by "
                       f"{sorted(conv_p.get(t, ()))}: the decoded address is not the one that was encoded (re-encoding it selects another tag / other bytes)")
     if cls.name in ("Address", "IPv4"):
         # text<->binary address conversion must use inverse partners on both sides (inet_aton accepts legacy notations that inet_pton rejects,
         # so probing with it turns numeric-looking host names into IPv4 addresses)
-        def conv(f):
-            out = set()
-            for c in calls(f):
-                n = call_name(c)
-                if n in ("inet_aton", "inet_ntoa"):
-                    out.add(("legacy", "AF_INET"))
-                elif n in ("inet_pton", "inet_ntop"):
-                    out.add(("strict", norm(c.args[0]).split(".")[-1]))
-            return out
-        cp, cu = conv(pk), conv(un)
+        # (pack side: conversions inside the packed values with locals expanded per path; unpack side: conversions evaluated on the paths,
+        #  with the family taken from the constant table entry / helper argument that is in force there)
+        cp = {c[:2] for a in alts for p in a if p[0] == "struct" for c in _addr_conversions(p[3], None)}
+        cp |= {c[:2] for c in _addr_conversions([st for st in walk_no_nested(pk.node) if isinstance(st, ast.stmt) and st is not pk.node], None)
+               if c[1].startswith("AF_")}
+        cu = {c[:2] for r, _ in runs for c in r.convs}
         ctx.check(cp == cu and bool(cp), "packer-symmetry", pk, pk.node, f"{cls.name}: address text conversion pairs {sorted(cp)} on both sides",
                   f"{cls.name}: pack converts addresses with {sorted(cp)} but unpack with {sorted(cu)}: the probe accepts strings the decoder would never produce "
                   "(e.g. inet_aton accepts '10.1'), so a domain name is written as an IPv4 address")
     if cls.name == "NodePacker":
         # formats in the order their bytes are concatenated (pack) / consumed (unpack), whatever the order of the statements
-        p = sorted({tuple(repr(const_value(x[2].args[0])) if x[0] == "delegate" and x[2].args else "?" for x in a) for a in alts})
-        u = sorted({tuple(repr(const_value(c.args[0])) if c.args else "?" for c in r.delegates) for r, _ in runs})
+        pf = [[const_value(x[2].args[0]) if x[0] == "delegate" and x[2].args else None for x in a] for a in alts]
+        uf = [[const_value(f) if f is not None else None for f in r.delegate_fmts] for r, _ in runs]
+        if any(r.loops for r, _ in runs) or any(not isinstance(f, str) for fs in pf + uf for f in fs):
+            raise AnalysisError("undecided: packer-symmetry: NodePacker packs / unpacks its parts in a loop or with computed format names; "
+                                "only a fixed sequence of serializer.pack(<name>, ..) / serializer.unpack(<name>, ..) calls is decided")
+        p = sorted({tuple(fs) for fs in pf})
+        u = sorted({tuple(fs) for fs in uf})
         ctx.check(p == u and len(p) == 1 and len(p[0]) == 2, "packer-symmetry", pk, pk.node, f"NodePacker: packs {p} and unpacks {u} in the same order", f"NodePacker packs {p} but unpacks {u}")
     if cls.name == "Flags":
-        p = [c for c in calls(pk, "pack")]
-        u = [c for c in calls(un, "unpack_from")]
-        ok = len(p) == 1 and len(u) == 1 and rchain(pk, p[0].args[0]) == rchain(un, u[0].args[0]) == "self.format"
-        ctx.check(ok, "packer-symmetry", pk, pk.node, "Flags: same struct format on both sides", "Flags packs and unpacks with different formats")
+        # one struct value on both sides, with the same format (inline `pack(self.format, ..)` or a precompiled Struct of it)
+        pfm = [[x[1] for x in a if x[0] == "struct"] if all(x[0] == "struct" for x in a) else None for a in alts]
+        ufm = [[k[len("struct:"):] for _, _, k in r.reads] if all(k.startswith("struct:") for _, _, k in r.reads) else None for r, _ in runs]
+        ok = bool(pfm) and bool(ufm) and all(f == ["self.format"] for f in pfm) and all(f == ["self.format"] for f in ufm)
+        ctx.check(ok, "packer-symmetry", pk, pk.node, "Flags: same struct format on both sides", f"Flags packs and unpacks with different formats (pack {pfm}, unpack {ufm})")
 
 
 # ------------------------------------------------------------------------------------------ concrete mini-interpreter
@@ -691,8 +1618,28 @@ _BUILTINS = {"bool": bool, "int": int, "len": len, "range": range, "list": list,
              "set": set, "frozenset": frozenset, "str": str, "isinstance": None}
 _PLAIN = (int, bool, str, bytes, tuple, list, dict, set, frozenset, type(None), range)
 _METHODS = {list: {"append", "extend", "insert", "index", "count", "pop", "reverse", "copy"}, tuple: {"index", "count"},
-            dict: {"get", "items", "keys", "values", "setdefault", "pop", "copy"}, bytes: {"join", "startswith", "endswith", "decode", "hex"},
+            dict: {"get", "items", "keys", "values", "setdefault", "pop", "copy", "update"}, bytes: {"join", "startswith", "endswith", "decode", "hex"},
             str: {"join", "startswith", "endswith", "encode", "lower", "upper"}, int: {"to_bytes", "bit_length"}, set: {"add", "discard"}}
+
+
+class _MiniStruct:
+    """A precompiled struct.Struct(fmt): its methods are the module-level struct functions with fmt as first argument."""
+
+    def __init__(self, fmt: str) -> None:
+        self.fmt = fmt
+
+    def __repr__(self) -> str:
+        return f"Struct({self.fmt!r})"
+
+
+class _ModuleScope:
+    """Stands in for a FuncInfo when a module-level / class-level constant initialiser is evaluated."""
+
+    def __init__(self, module, cls=None) -> None:
+        self.module = module
+        self.cls = cls
+        self.qualname = f"<constant of {module.relpath}>"
+        self.node = None
 
 
 class Mini:
@@ -833,8 +1780,44 @@ class Mini:
         elif isinstance(s, ast.Assert):
             if not self._truth(self._ev(s.test, env)):
                 raise MiniRaised("AssertionError")
+        elif isinstance(s, ast.Match):
+            subj = self._ev(s.subject, env)
+            self._plain(subj, s)
+            for case in s.cases:
+                if self._match(case.pattern, subj, env) and (case.guard is None or self._truth(self._ev(case.guard, env))):
+                    self._block(case.body, env)
+                    break
         else:
             raise MiniUndecided(f"{self.fi.qualname}: statement `{norm(s)[:60]}`")
+
+    def _match(self, p, subj, env) -> bool:
+        if isinstance(p, ast.MatchValue):
+            v = self._ev(p.value, env)
+            self._plain(v, p)
+            return subj == v
+        if isinstance(p, ast.MatchSingleton):
+            return subj is p.value
+        if isinstance(p, ast.MatchAs):
+            if p.pattern is not None and not self._match(p.pattern, subj, env):
+                return False
+            if p.name is not None:
+                env[p.name] = subj
+            return True
+        if isinstance(p, ast.MatchOr):
+            return any(self._match(q, subj, env) for q in p.patterns)
+        if isinstance(p, ast.MatchSequence) and not any(isinstance(q, ast.MatchStar) for q in p.patterns):
+            return isinstance(subj, (list, tuple)) and len(subj) == len(p.patterns) and all(self._match(q, x, env) for q, x in zip(p.patterns, subj))
+        raise MiniUndecided(f"{self.fi.qualname}: match pattern `{norm(p)[:50]}`")
+
+    def _constant(self, module, cls, expr):
+        """Value of a module-level / class-level constant: its initialiser evaluated in its own scope (displays, comprehensions, Struct(..))."""
+        if getattr(self, "_const_depth", 0) > 4:
+            raise MiniUndecided(f"{self.fi.qualname}: constants nested too deeply")
+        sub = Mini(self.repo, _ModuleScope(module, cls), self.on_call, self.fuel)
+        sub._const_depth = getattr(self, "_const_depth", 0) + 1
+        v = sub._ev(expr, {})
+        self.fuel = sub.fuel
+        return v
 
     def _store(self, t, v, env) -> None:
         if isinstance(t, ast.Name):
@@ -896,11 +1879,20 @@ class Mini:
             c = self.repo.resolve_const(self.fi.module, e, self.fi.cls)
             if c is not NOCONST:
                 return c
+            r = self.repo.resolve_name(self.fi.module, e.id)
+            if isinstance(r, tuple) and r[0] == "const":
+                return self._constant(r[1], None, r[2])          # a module-level table / precompiled struct: its initialiser is evaluated
             if e.id in _BUILTINS and _BUILTINS[e.id] is not None:
                 return _BUILTINS[e.id]
             if e.id in ("True", "False", "None"):
                 return {"True": True, "False": False, "None": None}[e.id]
             raise MiniUndecided(f"{self.fi.qualname}: unbound name {e.id}")
+        if isinstance(e, ast.NamedExpr):
+            v = self._ev(e.value, env)
+            env[e.target.id] = v
+            if isinstance(env.get("\0outer"), dict):
+                env["\0outer"][e.target.id] = v             # a walrus inside a comprehension binds in the enclosing function
+            return v
         if isinstance(e, ast.Attribute):
             c = self.repo.resolve_const(self.fi.module, e, self.fi.cls)
             if c is not NOCONST:
@@ -908,6 +1900,13 @@ class Mini:
             base = self._ev(e.value, env)
             if isinstance(base, Opaque) and e.attr in base.attrs:
                 return base.attrs[e.attr]
+            if isinstance(base, _MiniStruct) and e.attr in ("size", "format"):
+                return self._py(struct.calcsize, base.fmt) if e.attr == "size" else base.fmt
+            if isinstance(e.value, ast.Name) and e.value.id in ("self", "cls") and self.fi.cls is not None and isinstance(base, Opaque):
+                a = self.fi.cls.lookup_attr(e.attr)
+                if a is not None:
+                    owner = next(k for k in self.fi.cls.mro() if e.attr in k.attrs)
+                    return self._constant(owner.module, owner, a)      # a class-level table / precompiled struct
             raise MiniUndecided(f"{self.fi.qualname}: attribute `{norm(e)[:50]}`")
         if isinstance(e, (ast.Tuple, ast.List, ast.Set)):
             out = []
@@ -918,9 +1917,16 @@ class Mini:
                     out.append(self._ev(x, env))
             return tuple(out) if isinstance(e, ast.Tuple) else out if isinstance(e, ast.List) else set(out)
         if isinstance(e, ast.Dict):
-            if any(k is None for k in e.keys):
-                raise MiniUndecided("dict unpacking")
-            return {self._ev(k, env): self._ev(v, env) for k, v in zip(e.keys, e.values)}
+            out = {}
+            for k, v in zip(e.keys, e.values):
+                if k is None:
+                    sub = self._ev(v, env)          # {**other}
+                    if not isinstance(sub, dict):
+                        raise MiniUndecided(f"dict unpacking of {sub!r}")
+                    out.update(sub)
+                else:
+                    out[self._ev(k, env)] = self._ev(v, env)
+            return out
         if isinstance(e, ast.Subscript):
             base = self._ev(e.value, env)
             self._plain(base, e)
@@ -961,7 +1967,9 @@ class Mini:
             return self._ev(e.body if self._truth(self._ev(e.test, env)) else e.orelse, env)
         if isinstance(e, (ast.ListComp, ast.SetComp, ast.GeneratorExp, ast.DictComp)):
             out = []
-            self._comp(e, 0, dict(env), out)
+            inner = dict(env)
+            inner["\0outer"] = env.get("\0outer", env)
+            self._comp(e, 0, inner, out)
             return dict(out) if isinstance(e, ast.DictComp) else set(out) if isinstance(e, ast.SetComp) else out
         if isinstance(e, ast.Lambda):
             def fn(*a, _e=e, _env=env):
@@ -1008,16 +2016,30 @@ class Mini:
                 if not ok:
                     raise MiniUndecided(f"method `{norm(e.func)[:50]}` of {type(base).__name__}")
                 return self._py(getattr(base, e.func.attr), *args, **kwargs)
+            if base is not _NOBASE and isinstance(base, _MiniStruct) and e.func.attr in ("pack", "unpack", "unpack_from", "iter_unpack"):
+                # method of a precompiled struct = the struct function of that name with the format in front
+                name, base, args = e.func.attr, _NOBASE, [base.fmt, *args]
         else:
             base = _NOBASE
         if isinstance(e.func, ast.Name) and e.func.id in env:
             if callable(env[e.func.id]):
                 return self._py(env[e.func.id], *args)
             base = env[e.func.id]            # a local / parameter that is called (e.g. `cls(...)`): handed to the hook as the callee value
+        if name in ("Struct", "struct.Struct") and len(args) == 1 and isinstance(args[0], str) and not kwargs and not (isinstance(e.func, ast.Name) and e.func.id in env):
+            self._py(struct.calcsize, args[0])
+            return _MiniStruct(args[0])
         if self.on_call is not None:
             r = self.on_call(name, None if base is _NOBASE else base, args, kwargs)
             if r is not NotImplemented:
                 return r
+        target, recv = self._helper(e, base)
+        if target is not None:
+            sub = Mini(self.repo, target, self.on_call, self.fuel)
+            sub._call_depth = getattr(self, "_call_depth", 0) + 1
+            try:
+                return sub(*([recv] if recv is not _NOBASE else []), *args, **kwargs)
+            finally:
+                self.fuel = sub.fuel
         if name in _BUILTINS and _BUILTINS[name] is not None and not (isinstance(e.func, ast.Name) and e.func.id in env):
             if name in ("filter", "map", "reduce", "functools.reduce", "sorted", "min", "max") and any(isinstance(a, Opaque) for a in args):
                 raise MiniUndecided(f"call `{norm(e)[:50]}`")
@@ -1027,6 +2049,35 @@ class Mini:
 
 
 _NOBASE = object()
+
+
+def _mini_helper(self: Mini, e: ast.Call, base):
+    """(FuncInfo, receiver | _NOBASE) of a call to a plain function of /repo that the interpreted function may run itself: a module-level
+    function, or a method of the function's own class called on `self` / `cls`."""
+    if getattr(self, "_call_depth", 0) > 4 or self.fi.node is None:
+        return None, _NOBASE
+    f = e.func
+    target, recv = None, _NOBASE
+    if isinstance(f, ast.Name):
+        r = self.repo.resolve_name(self.fi.module, f.id)
+        if isinstance(r, FuncInfo) and r.cls is None:
+            target = r
+    elif isinstance(f, ast.Attribute) and isinstance(f.value, ast.Name) and f.value.id in ("self", "cls") and self.fi.cls is not None and isinstance(base, Opaque) \
+            and self.fi.params()[:1] == [f.value.id]:
+        m = self.fi.cls.lookup(f.attr)
+        if m is not None:
+            decs = {d.split(".")[-1] for d in m.decorator_names()}
+            if "staticmethod" in decs:
+                target = m
+            elif not decs or decs == {"classmethod"}:
+                if ("classmethod" in decs) == (f.value.id == "cls"):
+                    target, recv = m, base
+    if target is None or target.is_async or target is self.fi or any(isinstance(x, (ast.Yield, ast.YieldFrom)) for x in walk_no_nested(target.node)):
+        return None, _NOBASE
+    return target, recv
+
+
+Mini._helper = _mini_helper
 
 
 def _as_load(t):
